@@ -32,6 +32,7 @@ class Context:
 
     def enter_routine(self) -> None:
         self._in_routine = True
+        self._suspend_loops()
 
     def in_routine(self) -> bool:
         return self._in_routine
@@ -39,21 +40,35 @@ class Context:
     def exit_routine(self) -> None:
         self._in_routine = False
         self._locals.clear()
+        self._resume_loops()
 
     def enter_matrix(self) -> None:
         self._in_matrix = True
+        self._suspend_loops()
 
     def in_matrix(self) -> bool:
         return self._in_matrix
 
     def exit_matrix(self) -> None:
         self._in_matrix = False
+        self._resume_loops()
+
+    def _suspend_loops(self) -> None:
+        # Loops around a routine definition or a matrix block are not loops of
+        # its body: a "break" in the body must not jump out of it.
+        self._loop_stack.append(None)
+
+    def _resume_loops(self) -> None:
+        while len(self._loop_stack) > 0 and self._loop_stack[-1] is not None:
+            self._loop_stack.pop()
+        if len(self._loop_stack) > 0:
+            self._loop_stack.pop()
 
     def enter_loop(self) -> None:
         self._loop_stack.append(_LoopContext())
 
     def in_loop(self) -> bool:
-        return len(self._loop_stack) > 0
+        return len(self._loop_stack) > 0 and self._loop_stack[-1] is not None
 
     def exit_loop(self) -> None:
         self._loop_stack.pop()
